@@ -338,6 +338,9 @@ def class_src(c, all_specs):
         sig.append(p['name'] + (': ' + type_src(p['type']) if p.get('type') is not None else ''))
     if c.get('extra') == 'required':
         sig.append('_yatiml_extra: OrderedDict')
+    if c.get('extra') == 'default_first':
+        # defaulted, but not the last parameter
+        sig.append('_yatiml_extra: Optional[OrderedDict] = None')
     for p in opt:
         ann = (': ' + type_src(p['type'])) if p.get('type') is not None else ''
         sig.append('%s%s = %s' % (p['name'], ann, lit_src(p['default'])))
@@ -404,6 +407,10 @@ class Model:
                     and has_abstract_anc(c):
                 c['_needs_concrete'] = True
         self.source = '\n'.join('\n'.join(class_src(c, by)) + '\n' for c in specs)
+        # 'py_name': the class object's __name__ (two classes from different modules
+        # may share one); set after all classes exist, the spec name stays unique
+        self.source += ''.join('\n%s.__name__ = %r' % (c['name'], c['py_name'])
+                               for c in specs if c.get('py_name'))
         exec(compile(self.source, '<yv-model>', 'exec'), ns)
         self.ns = ns
         self.by = by
